@@ -218,55 +218,241 @@ Proof.
     assert (En : n = length pre') by lia. subst n. rewrite list_set_last. apply IH. reflexivity.
 Qed.
 
-(* Poly1Dom::read sizes and fills the vector, then stores every coefficient: what the variable held does not matter *)
-Definition Poly_read_dest_independent_stmt : Prop :=
-  forall (E : Type) (dflt zero one : E) (rd : stream -> E * stream) (s : stream) (g : Z) (old : list E),
-    poly_read_into dflt zero one rd s g old = poly_read rd s g.
-Lemma poly_read_dest_independent : Poly_read_dest_independent_stmt.
+(* the stores into P (resize, fill 0..0 1, P[deg] := coefficient) build the vector that accumulation builds; when no
+   degree can be extracted both leave what P held *)
+Lemma poly_read_into_eq (E : Type) (dflt zero one : E) (rd : stream -> E * stream) (s : stream) (old : list E) :
+  poly_read_into dflt zero one rd s old = poly_read rd s old.
 Proof.
-  intros E d z o rd s g old. unfold poly_read_into, poly_read.
-  destruct (num_get (- 2 ^ 63) (2 ^ 63 - 1) s g) as [deg s1].
-  destruct (deg <? 0); [reflexivity|].
-  pose proof (poly_store_coeffs_spec rd (S (Z.to_nat deg)) (poly_init_degree d z o old (S (Z.to_nat deg))) [] s1) as H.
+  unfold poly_read_into, poly_read.
+  destruct (num_get LONG_MIN LONG_MAX s (- 1)) as [deg s1].
+  destruct (failb s1); [reflexivity|]. destruct (deg <? 0); [reflexivity|].
+  pose proof (poly_store_coeffs_spec rd (S (Z.to_nat deg)) (poly_init_degree dflt zero one old (S (Z.to_nat deg))) [] s1) as H.
   rewrite app_nil_r in H. apply H.
   unfold poly_init_degree. rewrite fill_zero_one_length, vec_resize_length. reflexivity.
+Qed.
+
+(* Poly1Dom::read (body of frag/C19.fix-5).  When a degree is extracted the result does not depend on what the variable
+   held; when none is (end of input, failed stream, bad text) the variable keeps its value and the stream has failbit. *)
+Definition degree_read (s : stream) : bool := negb (failb (snd (num_get LONG_MIN LONG_MAX s (- 1)))).
+Definition Poly_read_dest_independent_stmt : Prop :=
+  forall (E : Type) (dflt zero one : E) (rd : stream -> E * stream) (s : stream) (old1 old2 : list E),
+    degree_read s = true ->
+    poly_read_into dflt zero one rd s old1 = poly_read_into dflt zero one rd s old2.
+Lemma poly_read_dest_independent : Poly_read_dest_independent_stmt.
+Proof.
+  intros E d z o rd s o1 o2. unfold degree_read, poly_read_into.
+  destruct (num_get LONG_MIN LONG_MAX s (- 1)) as [deg s1]. cbn [snd]. intro H.
+  destruct (failb s1); [discriminate|]. destruct (deg <? 0); [reflexivity|].
+  pose proof (poly_store_coeffs_spec rd (S (Z.to_nat deg)) (poly_init_degree d z o o1 (S (Z.to_nat deg))) [] s1) as H1.
+  pose proof (poly_store_coeffs_spec rd (S (Z.to_nat deg)) (poly_init_degree d z o o2 (S (Z.to_nat deg))) [] s1) as H2.
+  rewrite app_nil_r in H1, H2.
+  rewrite H1, H2; auto; unfold poly_init_degree; rewrite fill_zero_one_length, vec_resize_length; reflexivity.
+Qed.
+
+Definition Poly_read_no_degree_stmt : Prop :=
+  forall (E : Type) (dflt zero one : E) (rd : stream -> E * stream) (s : stream) (old : list E),
+    degree_read s = false ->
+    fst (poly_read_into dflt zero one rd s old) = old /\ failb (snd (poly_read_into dflt zero one rd s old)) = true.
+Lemma poly_read_no_degree : Poly_read_no_degree_stmt.
+Proof.
+  intros E d z o rd s old. unfold degree_read, poly_read_into.
+  destruct (num_get LONG_MIN LONG_MAX s (- 1)) as [deg s1]. cbn [snd]. intro H.
+  destruct (failb s1) eqn:Ef; [|discriminate]. cbn [fst snd]. auto.
+Qed.
+
+(* HISTORY: the body before the repair was undefined exactly when no degree is assigned or the degree is negative, and
+   agreed with the repaired body whenever a degree >= 0 was extracted *)
+Lemma num_get_assigned lo hi s g1 g2 : num_get_unassigned s = false -> num_get lo hi s g1 = num_get lo hi s g2.
+Proof.
+  unfold num_get_unassigned, num_get. intro H. apply orb_false_elim in H as [Hg Hn].
+  rewrite Hg. destruct (drop_ws (rest s)); [discriminate|reflexivity].
+Qed.
+Definition Poly_read_v0_stmt : Prop :=
+  forall (E : Type) (dflt zero one : E) (rd : stream -> E * stream) (s : stream) (old : list E),
+    (poly_read_into_v0 dflt zero one rd s old = None <->
+       (num_get_unassigned s = true \/ fst (num_get LONG_MIN LONG_MAX s 0) < 0)) /\
+    (forall r, poly_read_into_v0 dflt zero one rd s old = Some r -> degree_read s = true ->
+               r = poly_read_into dflt zero one rd s old).
+Lemma poly_read_v0 : Poly_read_v0_stmt.
+Proof.
+  intros E d z o rd s old. unfold poly_read_into_v0. split.
+  - destruct (num_get_unassigned s); [split; auto|].
+    destruct (num_get LONG_MIN LONG_MAX s 0) as [deg s1]. cbn [fst].
+    destruct (Z.ltb_spec deg 0); split; auto; try discriminate.
+    intros [H0|H0]; [discriminate|lia].
+  - intros r Hr Hd. destruct (num_get_unassigned s) eqn:Eu; [discriminate|].
+    unfold degree_read in Hd. unfold poly_read_into.
+    rewrite (num_get_assigned LONG_MIN LONG_MAX s (- 1) 0 Eu) in *.
+    destruct (num_get LONG_MIN LONG_MAX s 0) as [deg s1]. cbn [snd] in Hd.
+    destruct (failb s1); [discriminate|]. destruct (deg <? 0); [discriminate|]. inversion Hr. reflexivity.
 Qed.
 
 (* several polynomials in the reader's format, read one after the other into ONE variable that holds any polynomial *)
 Definition poly_ok (P : list Z) : Prop := P <> [] /\ Z.of_nat (length P) <= 2 ^ 63.
 Definition Poly_sequence_stmt : Prop :=
-  forall (E : Type) (dflt zero one : E) (init : Z -> E) (g : Z) (Ps : list (list Z)) (old : list E) (sep ws tail : list Z),
+  forall (E : Type) (dflt zero one : E) (init : Z -> E) (Ps : list (list Z)) (old : list E) (sep ws tail : list Z),
     Forall poly_ok Ps -> sep <> [] -> Forall space sep -> Forall space ws -> head_nondigit tail ->
-    read_many_into (fun s cur => poly_read_into dflt zero one (elt_read init) s g cur) (length Ps)
+    read_many_into (fun s cur => poly_read_into dflt zero one (elt_read init) s cur) (length Ps)
                    (from_chars (ws ++ sep_texts sep (map (poly_degfmt elt_write) Ps) ++ tail)) old
     = seq_trace (poly_degfmt elt_write) (map init) sep Ps tail.
 
 (* the degree-prefixed text after white space (ProofsElt proves it without) *)
-Lemma poly_degree_format_roundtrip_ws (E : Type) (init : Z -> E) (P : list Z) (g : Z) (ws rs : list Z) :
+Lemma poly_degree_format_roundtrip_ws (E : Type) (init : Z -> E) (P : list Z) (old : list E) (ws rs : list Z) :
   P <> [] -> Z.of_nat (length P) <= 2 ^ 63 -> Forall space ws -> head_nondigit rs ->
-  poly_read (elt_read init) (from_chars (ws ++ poly_degfmt elt_write P ++ rs)) g = (map init P, after rs).
+  poly_read (elt_read init) (from_chars (ws ++ poly_degfmt elt_write P ++ rs)) old = (map init P, after rs).
 Proof.
-  intros HP Hlen Hws Hr. unfold poly_read, poly_degfmt.
+  intros HP Hlen Hws Hr. unfold poly_read, poly_degfmt, LONG_MIN, LONG_MAX.
   assert (Hl : 0 < Z.of_nat (length P)) by (destruct P; [contradiction|cbn [length]; lia]).
   rewrite <- app_assoc.
   assert (Hrev : rev P <> []) by (intro Er; apply (f_equal (@rev Z)) in Er; rewrite rev_involutive in Er; auto).
-  rewrite (num_get_roundtrip (- 2 ^ 63) (2 ^ 63 - 1) (Z.of_nat (length P) - 1) g ws
+  rewrite (num_get_roundtrip (- 2 ^ 63) (2 ^ 63 - 1) (Z.of_nat (length P) - 1) (- 1) ws
              (flat_map (fun c => 32 :: elt_write c) (rev P) ++ rs)); [|lia|auto|].
   2:{ destruct (rev P); [contradiction|reflexivity]. }
-  destruct (Z.ltb_spec (Z.of_nat (length P) - 1) 0); [lia|].
-  replace (S (Z.to_nat (Z.of_nat (length P) - 1))) with (length (rev P)) by (rewrite rev_length; lia).
   assert (Eaft : after (flat_map (fun c => 32 :: elt_write c) (rev P) ++ rs)
                  = from_chars ([] ++ flat_map (fun c => 32 :: elt_write c) (rev P) ++ rs)).
   { destruct (rev P); [contradiction|reflexivity]. }
-  rewrite Eaft. rewrite poly_read_coeffs_spec; auto.
+  rewrite Eaft. cbn [from_chars failb].
+  destruct (Z.ltb_spec (Z.of_nat (length P) - 1) 0); [lia|].
+  replace (S (Z.to_nat (Z.of_nat (length P) - 1))) with (length (rev P)) by (rewrite rev_length; lia).
+  change (mkS ([] ++ flat_map (fun c => 32 :: elt_write c) (rev P) ++ rs) false false)
+    with (from_chars ([] ++ flat_map (fun c => 32 :: elt_write c) (rev P) ++ rs)).
+  rewrite poly_read_coeffs_spec; auto.
   rewrite app_nil_r, map_rev, rev_involutive. reflexivity.
 Qed.
 
 Lemma poly_sequence : Poly_sequence_stmt.
 Proof.
-  intros E d z o init g Ps old sep ws tail HPs Hsep Hss Hws Ht.
-  apply (read_many_into_seq (fun s cur => poly_read_into d z o (elt_read init) s g cur) (poly_degfmt elt_write) (map init)
+  intros E d z o init Ps old sep ws tail HPs Hsep Hss Hws Ht.
+  apply (read_many_into_seq (fun s cur => poly_read_into d z o (elt_read init) s cur) (poly_degfmt elt_write) (map init)
                             poly_ok (fun _ => True)); auto.
-  intros P o' w r [HP Hlen] _ Hw Hr. rewrite poly_read_dest_independent.
+  intros P o' w r [HP Hlen] _ Hw Hr. rewrite poly_read_into_eq.
   apply poly_degree_format_roundtrip_ws; auto.
+Qed.
+
+(* ------------------------------------------------------------------ the read at the end of the input: `while (in >> x)` *)
+Lemma read_many_into_app {A} (rd : stream -> A -> A * stream) : forall n m s cur,
+  read_many_into rd (n + m) s cur =
+  read_many_into rd n s cur ++
+  read_many_into rd m (last (map snd (read_many_into rd n s cur)) s) (last (map fst (read_many_into rd n s cur)) cur).
+Proof.
+  induction n as [|n IH]; intros m s cur; [reflexivity|].
+  cbn [Nat.add read_many_into]. destruct (rd s cur) as [x s1]. cbn [app map fst snd]. f_equal.
+  rewrite IH. f_equal.
+  destruct (read_many_into rd n s1 x) as [|y ys]; [reflexivity|].
+  cbn [map]. rewrite (last_cons_indep (map snd ys) (snd y) s1 s), (last_cons_indep (map fst ys) (fst y) x cur). reflexivity.
+Qed.
+
+Lemma last_cons_ne {T} (x : T) l d : l <> [] -> last (x :: l) d = last l d.
+Proof. destruct l; [contradiction|reflexivity]. Qed.
+Lemma seq_trace_last {A B} (wr : B -> list Z) (val : B -> A) sep : forall bs b tail (d1 : stream) (d2 : A),
+  last (map snd (seq_trace wr val sep (b :: bs) tail)) d1 = after tail /\
+  last (map fst (seq_trace wr val sep (b :: bs) tail)) d2 = val (last bs b).
+Proof.
+  induction bs as [|b' bs IH]; intros b tail d1 d2.
+  - cbn. split; reflexivity.
+  - destruct (IH b' tail d1 d2) as [H1 H2].
+    assert (Hne : seq_trace wr val sep (b' :: bs) tail <> []) by discriminate.
+    remember (seq_trace wr val sep (b' :: bs) tail) as t eqn:Et.
+    assert (E : seq_trace wr val sep (b :: b' :: bs) tail = (val b, after (sep_texts sep (map wr (b' :: bs)) ++ tail)) :: t)
+      by (rewrite Et; reflexivity).
+    rewrite E. cbn [map fst snd].
+    rewrite !last_cons_ne by (destruct t; [contradiction|discriminate]).
+    split; [exact H1|]. rewrite H2. f_equal. destruct bs as [|b0 bs]; [reflexivity|].
+    change (last (b' :: b0 :: bs) b) with (last (b0 :: bs) b). apply last_cons_indep.
+Qed.
+
+Lemma last_in {T} : forall (l : list T) x, In (last l x) (x :: l).
+Proof.
+  induction l as [|a l IH]; intro x; [left; reflexivity|].
+  destruct l as [|b l']; [right; left; reflexivity|].
+  change (last (a :: b :: l') x) with (last (b :: l') x). rewrite (last_cons_indep l' b x a).
+  right. apply IH.
+Qed.
+
+Section SeqEoi.
+  Context {A B : Type}.
+  Variable rd : stream -> A -> A * stream.
+  Variable wr : B -> list Z.
+  Variable val : B -> A.
+  Variable okB : B -> Prop.
+  Variable inv : A -> Prop.
+  Variable eoi : A -> A.        (* what the variable holds after the read that finds nothing *)
+  Hypothesis Hrd : forall b old ws rs, okB b -> inv old -> Forall space ws -> head_nondigit rs ->
+    rd (from_chars (ws ++ wr b ++ rs)) old = (val b, after rs).
+  Hypothesis Hinv : forall b, okB b -> inv (val b).
+  Hypothesis Heoi : forall old tail, inv old -> Forall space tail -> rd (after tail) old = (eoi old, mkS [] true true).
+
+  (* n values, n + 1 reads: the last one finds only white space up to the end of the input *)
+  Lemma read_many_into_seq_eoi sep : sep <> [] -> Forall space sep ->
+    forall b bs tail old ws, Forall okB (b :: bs) -> inv old -> Forall space ws -> Forall space tail ->
+      read_many_into rd (S (length (b :: bs))) (from_chars (ws ++ sep_texts sep (map wr (b :: bs)) ++ tail)) old
+      = seq_trace wr val sep (b :: bs) tail ++ [(eoi (val (last bs b)), mkS [] true true)].
+  Proof.
+    intros Hsep Hss b bs tail old ws Hok Hold Hws Ht.
+    assert (Hnd : head_nondigit tail).
+    { destruct tail as [|c t]; [exact I|]. inversion Ht; subst. cbn. apply space_not_digit; auto. }
+    replace (S (length (b :: bs))) with (length (b :: bs) + 1)%nat by lia.
+    rewrite read_many_into_app.
+    rewrite (read_many_into_seq rd wr val okB inv Hrd Hinv sep Hsep Hss (b :: bs) tail old ws Hok Hold Hws Hnd).
+    f_equal.
+    destruct (seq_trace_last wr val sep bs b tail (from_chars (ws ++ sep_texts sep (map wr (b :: bs)) ++ tail)) old) as [H1 H2].
+    rewrite H1, H2. cbn [read_many_into].
+    rewrite Heoi; auto. apply Hinv.
+    rewrite Forall_forall in Hok. apply Hok. apply last_in.
+  Qed.
+End SeqEoi.
+
+Lemma drop_ws_all_space : forall l, Forall space l -> drop_ws l = [].
+Proof. induction l as [|c l IH]; intro H; [reflexivity|]. inversion H; subst. cbn [drop_ws]. rewrite H2. auto. Qed.
+Lemma gmp_ws_loop_all_space : forall l c, space c -> Forall space l -> exists c', gmp_ws_loop c l = (c', [], true).
+Proof.
+  induction l as [|d l IH]; intros c Hc Hl.
+  - exists c. cbn [gmp_ws_loop]. rewrite Hc. reflexivity.
+  - inversion Hl; subst. destruct (IH d H1 H2) as (c' & E). exists c'. cbn [gmp_ws_loop]. rewrite Hc. exact E.
+Qed.
+
+Lemma integer_eoi old tail : Forall space tail -> Integer_in (after tail) old = (old, mkS [] true true).
+Proof.
+  intro Ht. destruct tail as [|c t]; [reflexivity|].
+  inversion Ht; subst. unfold Integer_in, gmp_read, after, sget, good. cbn [eofb failb rest negb andb].
+  destruct (gmp_ws_loop_all_space t c H1 H2) as (c' & ->). reflexivity.
+Qed.
+
+Lemma poly_eoi (E : Type) (d z o : E) (rd : stream -> E * stream) old tail : Forall space tail ->
+  poly_read_into d z o rd (after tail) old = (old, mkS [] true true).
+Proof.
+  intro Ht. unfold poly_read_into, num_get. destruct tail as [|c t]; [reflexivity|].
+  unfold after, good. cbn [eofb failb rest negb andb]. rewrite (drop_ws_all_space (c :: t) Ht). reflexivity.
+Qed.
+
+(* integers: one more read than there are values: every value comes back, then the variable keeps the last one and the
+   stream has eofbit and failbit *)
+Definition Integer_sequence_eoi_stmt : Prop :=
+  forall (z : Z) (zs : list Z) (old : Z) (sep ws tail : list Z), sep <> [] -> Forall space sep -> Forall space ws -> Forall space tail ->
+    read_many_into Integer_in (S (length (z :: zs))) (from_chars (ws ++ sep_texts sep (map Integer_out (z :: zs)) ++ tail)) old
+    = seq_trace Integer_out (fun x => x) sep (z :: zs) tail ++ [(last zs z, mkS [] true true)].
+Lemma integer_sequence_eoi : Integer_sequence_eoi_stmt.
+Proof.
+  intros z zs old sep ws tail Hsep Hss Hws Ht.
+  apply (read_many_into_seq_eoi Integer_in Integer_out (fun x => x) (fun _ => True) (fun _ => True) (fun x => x)); auto.
+  - intros b o w r _ _ Hw Hr. apply integer_roundtrip; auto.
+  - intros o t _ Htt. apply integer_eoi; auto.
+  - apply Forall_forall. auto.
+Qed.
+
+(* polynomials (repaired reader): `while (D.read(in, P))` over n polynomials makes n + 1 reads; the last one leaves P
+   (the last polynomial) alone and sets failbit *)
+Definition Poly_sequence_eoi_stmt : Prop :=
+  forall (E : Type) (dflt zero one : E) (init : Z -> E) (P : list Z) (Ps : list (list Z)) (old : list E) (sep ws tail : list Z),
+    Forall poly_ok (P :: Ps) -> sep <> [] -> Forall space sep -> Forall space ws -> Forall space tail ->
+    read_many_into (fun s cur => poly_read_into dflt zero one (elt_read init) s cur) (S (length (P :: Ps)))
+                   (from_chars (ws ++ sep_texts sep (map (poly_degfmt elt_write) (P :: Ps)) ++ tail)) old
+    = seq_trace (poly_degfmt elt_write) (map init) sep (P :: Ps) tail ++ [(map init (last Ps P), mkS [] true true)].
+Lemma poly_sequence_eoi : Poly_sequence_eoi_stmt.
+Proof.
+  intros E d z o init P Ps old sep ws tail HPs Hsep Hss Hws Ht.
+  apply (read_many_into_seq_eoi (fun s cur => poly_read_into d z o (elt_read init) s cur) (poly_degfmt elt_write) (map init)
+                                poly_ok (fun _ => True) (fun x => x)); auto.
+  - intros Q o' w r [HQ Hlen] _ Hw Hr. rewrite poly_read_into_eq. apply poly_degree_format_roundtrip_ws; auto.
+  - intros o' t _ Htt. apply poly_eoi; auto.
 Qed.
